@@ -15,6 +15,8 @@ import Golib.HMap.Multi
 import Golib.HMap.Enum
 import Golib.HMap.MultiLemmas
 import Golib.HMap.WireLemmas
+import Golib.HMap.EntryLemmas
+import Golib.HMap.EntryTypes
 
 set_option linter.unusedSectionVars false
 
@@ -582,6 +584,89 @@ theorem irregular_types :
 
 theorem thirteen_types : linkedTypes.length = 13 ∧ (linkedTypes.map (·.name)).Nodup := by decide
 
+/-! ### the rest of the public API: entry objects, container text, enumerators opened at an entry (round 4)
+
+`XOp` = the operations above plus: `SetValue` on a live entry object handed out by `Entries()`, `Unipoint`, an enumerator
+constructed at an entry (`New<Type>Enumer`), `ValueIterator` (HasNext / Next), `ToString` / `ToFormatString`, `ToKeySet`,
+entry `Equals` / `HashCode`. -/
+
+/-- one operation of the extended API: invariant kept, same output as the dictionary (the text of `ToString` included:
+    the `for i := 0; x.HasMoreElements(); i++` loop over the enumerator object yields exactly `{e₁, e₂, …}`), abstraction commutes -/
+theorem refine_xstep (hash : K → Nat) (thr : Nat → Nat) (d : Desc K V) (ek : EntryKind K V) (m : LMap K V) (op : XOp K V)
+    (h : LMap.Inv hash d m) :
+    LMap.Inv hash d (LMap.xstep hash thr d ek m op).1 ∧
+    (LMap.xstep hash thr d ek m op).2 = (S.xstep d ek (LMap.abs hash m) op).2 ∧
+    LMap.abs hash (LMap.xstep hash thr d ek m op).1 = (S.xstep d ek (LMap.abs hash m) op).1 :=
+  LMap.refine_xstep thr ek h op
+
+/-- every finite history over the extended API, from a fresh map of any capacity -/
+theorem refine_xrun (hash : K → Nat) (thr : Nat → Nat) (d : Desc K V) (ek : EntryKind K V) (cap : Nat) (ops : List (XOp K V)) :
+    (LMap.xrun hash thr d ek (LMap.new thr cap) ops).2 = (S.xrun d ek {} ops).2 := by
+  have := (LMap.refine_xrun thr ek ops (LMap.Inv.new (hash := hash) (thr := thr) (d := d) cap)).2.1
+  rw [LMap.abs_new] at this
+  exact this
+
+/-- … and from any reachable state -/
+theorem refine_xrun_from (hash : K → Nat) (thr : Nat → Nat) (d : Desc K V) (ek : EntryKind K V) (m : LMap K V)
+    (ops : List (XOp K V)) (h : LMap.Inv hash d m) :
+    LMap.Inv hash d (LMap.xrun hash thr d ek m ops).1 ∧
+    (LMap.xrun hash thr d ek m ops).2 = (S.xrun d ek (LMap.abs hash m) ops).2 ∧
+    LMap.abs hash (LMap.xrun hash thr d ek m ops).1 = (S.xrun d ek (LMap.abs hash m) ops).1 :=
+  LMap.refine_xrun thr ek ops h
+
+/-- `SetValue` on the entry object of a stored key writes THROUGH to the dictionary: the previous value is returned, the key
+    then maps to the new value, every other key keeps its value, and the keys, their order and the size are untouched
+    (frame condition) — no eviction, no relinking, whatever the bound -/
+theorem entry_setValue_writes_through (s : S K V) (k : K) (v old : V) (hk : AL.get s.ents k = some old) :
+    (s.entrySetValue k v).2 = some old ∧
+    AL.get (s.entrySetValue k v).1.ents k = some v ∧
+    (∀ k', k' ≠ k → AL.get (s.entrySetValue k v).1.ents k' = AL.get s.ents k') ∧
+    AL.keys (s.entrySetValue k v).1.ents = AL.keys s.ents ∧
+    (s.entrySetValue k v).1.ents.length = s.ents.length ∧ (s.entrySetValue k v).1.max = s.max := by
+  unfold S.entrySetValue
+  simp only [hk]
+  refine ⟨by trivial, ?_, ?_, AL.keys_set _ _ _, AL.length_set _ _ _, by trivial⟩
+  · rw [AL.get_set]; simp [hk]
+  · intro k' hne; rw [AL.get_set]; simp [Ne.symm hne]
+
+/-- on a stored key it is the same as `Put` (mode PUT_LAST, which does not move a present key) -/
+theorem entry_setValue_is_put (d : Desc K V) (s : S K V) (k : K) (v old : V) (hk : AL.get s.ents k = some old)
+    (hr : d.refuse k = false) : s.entrySetValue k v = S.put d s .last k v := by
+  unfold S.entrySetValue S.put S.putWith
+  simp [hk, hr, AL.touch]
+
+/-- an entry object whose key is no longer stored has no effect on the dictionary -/
+theorem entry_setValue_absent (s : S K V) (k : K) (v : V) (hk : AL.get s.ents k = none) :
+    s.entrySetValue k v = (s, none) := by
+  unfold S.entrySetValue; simp [hk]
+
+/-- an enumerator constructed at the entry of `k` yields the keys from `k` on: the enumeration splits into the keys before
+    `k` (none of them is `k`) and what the enumerator yields, which starts with `k` when `k` is stored -/
+theorem enumFrom_suffix (d : Desc K V) (ek : EntryKind K V) (s : S K V) (k : K) :
+    ∃ rest, (S.xstep d ek s (.enumFrom k)).2 = .out (.keys rest) ∧
+      AL.keys s.ents = (AL.keys s.ents).takeWhile (· != k) ++ rest ∧
+      k ∉ (AL.keys s.ents).takeWhile (· != k) ∧
+      (k ∈ AL.keys s.ents → rest.head? = some k) := by
+  exact ⟨(AL.keys s.ents).dropWhile (· != k), rfl, (List.takeWhile_append_dropWhile).symm,
+    LMap.not_mem_takeWhile_ne _ k, LMap.head_dropWhile_ne _ k⟩
+
+/-- `Equals` of two entries implies equal keys; entries of one container with distinct keys are never equal -/
+theorem entry_equals_key (ek : EntryKind K V) (a b : K × V) (h : ek.equals a b = true) : a.1 = b.1 := by
+  unfold EntryKind.equals at h
+  simp only [Bool.and_eq_true, decide_eq_true_eq] at h
+  exact h.1
+
+/-- for the key-only entry types `Equals` is exactly key equality -/
+theorem entry_equals_keyOnly (ek : EntryKind K V) (hk : ek.eqValue = false) (a b : K × V) :
+    ek.equals a b = decide (a.1 = b.1) := by
+  unfold EntryKind.equals; simp [hk]
+
+/-- the ten entry types of the table, and which of them compare the value -/
+theorem entry_types :
+    entryDescs.length = 13 ∧ (entryDescs.map (·.owner)) = linkedTypes.map (·.name) ∧
+    ((entryDescs.filter (·.equals == "kv")).map (·.owner)
+      = ["IntIntLinkedMap", "IntFloatLinkedMap", "LongFloatLinkedMap", "LongLongLinkedMap"]) := by decide
+
 /-! ### non-vacuity -/
 
 example : LMap.Inv (fun k : Int => k.toNat) (setDesc Int) (LMap.new (fun c => c * 3 / 4) 0 : LMap Int Unit) :=
@@ -655,6 +740,34 @@ example :
     ((LMap.run (fun _ : Int => 7) (fun c => c / 2) d m [.get 1, .put .last 3 33, .size]).2 = [.val 10, .val 30, .nat 5]) ∧
     ((LMap.run (fun _ : Int => 7) (fun c => c / 2) d m [.remove 1, .size, .put .last 9 90, .size, .keys]).2
       = [.val 10, .nat 4, .none, .nat 2, .keys [5, 9]]) := by
+  decide
+
+/-- the extended API on a concrete map (constant hash: one chain): SetValue through an entry object, Unipoint-style put,
+    an enumerator opened at an entry, ToKeySet, the text of ToString and ToFormatString, entry Equals / HashCode;
+    `entry_setValue_writes_through`'s hypothesis holds for key 1 -/
+example :
+    let d : Desc Int Int := { comb := fun a b => a + b, veq := fun a b => a == b }
+    let ek : EntryKind Int Int := { eqValue := true, veq := fun a b => a == b, hashCode := fun k v => u64 k ^^^ u64 v,
+                                     showK := fun k => [48 + k.toNat], showV := fun v => [48 + v.toNat] }
+    let m := (LMap.run (fun _ : Int => 7) (fun c => c / 2) d (LMap.new (fun c => c / 2) 1)
+      [.put .last 1 5, .put .last 2 6, .put .forceFirst 3 7]).1
+    AL.get (LMap.abs (fun _ => 7) m).ents 1 = some 5 ∧
+    (LMap.xrun (fun _ : Int => 7) (fun c => c / 2) d ek m
+      [.entrySetValue 1 9, .base .entries, .entrySetValue 4 9, .enumFrom 1, .toKeySet, .valueIterator, .toString false,
+       .toString true, .entryEquals 1 2, .entryEquals 2 2, .unipoint 8 0, .base .keys]).2
+      = [.out (.val 5), .out (.ents [(3, 7), (1, 9), (2, 6)]), .out .none, .out (.keys [1, 2]), .out (.keys [2, 1, 3]),
+         .out (.vals [7, 9, 6]), .text [123, 51, 61, 55, 44, 32, 49, 61, 57, 44, 32, 50, 61, 54, 125],
+         .text [123, 51, 61, 55, 10, 44, 32, 49, 61, 57, 10, 44, 32, 50, 61, 54, 10, 125],
+         .eq false 8, .eq true 4, .out (.key 8), .out (.keys [3, 1, 2, 8])] := by
+  decide
+
+/-- the per-type reading used by the driver: decimal text, `<nil>`, the float placeholder, the three HashCode expressions -/
+example :
+    decBytes (-12) = [45, 49, 50] ∧
+    entryHash (lt "IntIntLinkedMap" .int32 .int32 .accumulate .noCtor .all) ⟨"", "", "kv", "uint(this.key) ^ uint(this.value)", "", [], ""⟩ (-1) 1
+      = 18446744073709551614 ∧
+    entryHash (lt "IntKeyLinkedMap" .int32 .obj .none .guarded .all) ⟨"", "", "k", "uint(this.key ^ this.key>>32)", "", [], ""⟩ (-5) 0 = 4 ∧
+    entryHash (lt "LongKeyLinkedMap" .int64 .obj .none .guarded .none) ⟨"", "", "k", "uint(this.key ^ this.key>>32)", "", [], ""⟩ 4294967298 0 = 4294967299 := by
   decide
 
 end C09
